@@ -181,9 +181,44 @@ func GuardsOf(b *ssa.BasicBlock) []Guard {
 		}
 		if g, ok := edgeGuard(p, x); ok {
 			gs = append(gs, g)
+			gs = append(gs, expandShortCircuit(g, 0)...)
 		}
 	}
 	return gs
+}
+
+// expandShortCircuit: a guard on the value of a short-circuit expression
+// evaluated as a value (go/ssa lowers `a && b && c` outside an if condition,
+// e.g. in a tagless switch case, to φ(false, false, c)): if the φ is known
+// true (resp. false for ||) control came through the one predecessor that
+// does not contribute the constant, so that operand has the same truth value
+// and everything that guards that predecessor holds as well. All conditions
+// are SSA values, hence still valid where the guard is used.
+func expandShortCircuit(g Guard, depth int) []Guard {
+	ph, ok := g.Cond.(*ssa.Phi)
+	if !ok || depth > 4 {
+		return nil
+	}
+	k := -1
+	for i, e := range ph.Edges {
+		c, isC := e.(*ssa.Const)
+		if isC && c.Value != nil && c.Value.ExactString() == map[bool]string{true: "false", false: "true"}[g.Pol] {
+			continue // this edge contributes the short-circuit constant, excluded by the guard's polarity
+		}
+		if k >= 0 {
+			return nil
+		}
+		k = i
+	}
+	if k < 0 {
+		return nil
+	}
+	pred := ph.Block().Preds[k]
+	inner := Guard{ph.Edges[k], g.Pol, g.If}
+	out := []Guard{inner}
+	out = append(out, expandShortCircuit(inner, depth+1)...)
+	out = append(out, GuardsOf(pred)...)
+	return out
 }
 
 // edgeGuard: x is immediately dominated by p; if every predecessor path into
@@ -480,8 +515,10 @@ func GuardsOnEdge(pred, succ *ssa.BasicBlock) []Guard {
 		if iff, ok := pred.Instrs[len(pred.Instrs)-1].(*ssa.If); ok && pred.Succs[0] != pred.Succs[1] {
 			if succ == pred.Succs[0] {
 				gs = append(gs, Guard{iff.Cond, true, iff})
+				gs = append(gs, expandShortCircuit(Guard{iff.Cond, true, iff}, 0)...)
 			} else if succ == pred.Succs[1] {
 				gs = append(gs, Guard{iff.Cond, false, iff})
+				gs = append(gs, expandShortCircuit(Guard{iff.Cond, false, iff}, 0)...)
 			}
 		}
 	}
